@@ -30,15 +30,6 @@ Proof.
     pose proof (find_none _ _ E f Hin) as H. cbn in H. rewrite Hn, String.eqb_refl in H. discriminate.
 Qed.
 
-Lemma lookup_none_iff n s : lookup n s = None <-> lacks s n.
-Proof.
-  unfold lookup, lacks. split.
-  - intros E f Hin Hn. pose proof (find_none _ _ E f Hin) as H. cbn in H.
-    rewrite Hn, String.eqb_refl in H. discriminate.
-  - intros H. destruct (find _ s) as [g|] eqn:E; [|reflexivity].
-    apply find_some in E. destruct E as [Hin He]. apply String.eqb_eq in He. exfalso. now apply (H g).
-Qed.
-
 Lemma has_lookup s n p : uniq s -> (has s n p <-> exists f, lookup n s = Some f /\ p f = true).
 Proof.
   intros Hu. split.
@@ -63,69 +54,14 @@ Proof.
     pose proof (find_none _ _ E x Hin). congruence.
 Qed.
 
-(* the code's decision, as a condition on the two shapes *)
-Lemma paged_iff_code req resp :
-  uniq req -> uniq resp ->
-  ((exists f, paged_result_field req resp = Some f) <-> code_paged req resp).
+Lemma sing_str_eq f : token_ok f = sing_str f.
+Proof. unfold token_ok, sing_str. apply andb_comm. Qed.
+Lemma sing_int_eq f : negb (frep f) && is_int f = sing_int f.
+Proof. unfold sing_int. apply andb_comm. Qed.
+Lemma legacy_size_eq f : negb (frep f) && size_type_ok f = legacy_size f.
 Proof.
-  intros Hq Hr. unfold paged_result_field, code_paged, size_field.
-  rewrite (has_lookup req "page_token" is_str Hq), (has_lookup resp "next_page_token" is_str Hr),
-          (has_lookup req "max_results" size_type_ok Hq), (has_lookup req "page_size" size_type_ok Hq).
-  rewrite <- (lookup_none_iff "max_results" req).
-  unfold has_repeated. rewrite <- (find_some_iff_exists frep resp). fold (first_repeated resp).
-  destruct (lookup "page_token" req) as [t|] eqn:Et.
-  2:{ split; [intros (f & H); discriminate | intros ((f & H & _) & _); discriminate]. }
-  destruct (is_str t) eqn:Est; cbn [negb].
-  2:{ split; [intros (f & H); discriminate | intros ((f & H & Hs) & _); inversion H; subst; congruence]. }
-  destruct (lookup "next_page_token" resp) as [n|] eqn:En.
-  2:{ split; [intros (f & H); discriminate | intros (_ & (f & H & _) & _); discriminate]. }
-  destruct (is_str n) eqn:Esn; cbn [negb].
-  2:{ split; [intros (f & H); discriminate | intros (_ & (f & H & Hs) & _); inversion H; subst; congruence]. }
-  destruct (lookup "max_results" req) as [m|] eqn:Em.
-  - destruct (size_type_ok m) eqn:Eok.
-    + split.
-      * intros H. repeat split; eauto.
-      * intros (_ & _ & _ & H). exact H.
-    + split; [intros (f & H); discriminate|].
-      intros (_ & _ & [(f & H & Hs)|(H & _)] & _); [inversion H; subst; congruence|discriminate].
-  - destruct (lookup "page_size" req) as [z|] eqn:Ez.
-    + destruct (size_type_ok z) eqn:Eok.
-      * split.
-        -- intros H. repeat split; eauto.
-        -- intros (_ & _ & _ & H). exact H.
-      * split; [intros (f & H); discriminate|].
-        intros (_ & _ & [(f & H & _)|(_ & (f & H & Hs))] & _); [discriminate|inversion H; subst; congruence].
-    + split; [intros (f & H); discriminate|].
-      intros (_ & _ & [(f & H & _)|(_ & (f & H & _))] & _); discriminate.
-Qed.
-
-(* when a method is paged, the item field is the first repeated field of the response, in declaration order *)
-Lemma paged_field_first_repeated req resp f :
-  paged_result_field req resp = Some f ->
-  exists before after, resp = before ++ f :: after /\ frep f = true /\ Forall (fun g => frep g = false) before.
-Proof.
-  unfold paged_result_field. intros H.
-  destruct (lookup "page_token" req) as [t|]; [|discriminate].
-  destruct (negb (is_str t)); [discriminate|].
-  destruct (lookup "next_page_token" resp) as [n|]; [|discriminate].
-  destruct (negb (is_str n)); [discriminate|].
-  destruct (size_field req) as [sz|]; [|discriminate].
-  destruct (size_type_ok sz); [|discriminate].
-  now apply find_split.
-Qed.
-
-Lemma paged_field_is_find req resp :
-  uniq req -> uniq resp -> code_paged req resp -> paged_result_field req resp = first_repeated resp.
-Proof.
-  intros Hq Hr Hc. pose proof (proj2 (paged_iff_code req resp Hq Hr) Hc) as (f & Hf).
-  rewrite Hf. revert Hf. unfold paged_result_field.
-  destruct (lookup "page_token" req) as [t|]; [|discriminate].
-  destruct (negb (is_str t)); [discriminate|].
-  destruct (lookup "next_page_token" resp) as [n|]; [|discriminate].
-  destruct (negb (is_str n)); [discriminate|].
-  destruct (size_field req) as [sz|]; [|discriminate].
-  destruct (size_type_ok sz); [|discriminate].
-  intros H. now rewrite H.
+  unfold legacy_size, sing_int, sing_wrapper32, size_type_ok, is_int.
+  destruct (fty f), (frep f); cbn; try reflexivity; now rewrite ?andb_true_r, ?andb_false_r.
 Qed.
 
 (* ---- the sentence of the property, decided ---- *)
@@ -147,126 +83,86 @@ Proof.
   rewrite !andb_true_iff, orb_true_iff, !hasb_iff, existsb_frep_iff. tauto.
 Qed.
 
-Lemma sing_str_is_str f : sing_str f = true -> is_str f = true.
-Proof. unfold sing_str. intros H. apply andb_true_iff in H. tauto. Qed.
-Lemma sing_int_ok f : sing_int f = true -> size_type_ok f = true.
-Proof.
-  unfold sing_int, is_int, size_type_ok. intros H. apply andb_true_iff in H. destruct H as [H _].
-  destruct (fty f); try discriminate; reflexivity.
-Qed.
-Lemma legacy_size_ok f : legacy_size f = true -> size_type_ok f = true.
-Proof.
-  unfold legacy_size. intros H. apply orb_true_iff in H. destruct H as [H|H]; [now apply sing_int_ok|].
-  unfold sing_wrapper32 in H. apply andb_true_iff in H. destruct H as [H _].
-  unfold size_type_ok. destruct (fty f); try discriminate; exact H.
-Qed.
-
-Lemma has_weaken s n (p q : field -> bool) : (forall f, In f s -> fname f = n -> p f = true -> q f = true) -> has s n p -> has s n q.
-Proof. intros H (f & Hin & Hn & Hp). exists f. auto. Qed.
-
-(* On regular shapes the code's decision is the property's sentence. *)
-Lemma paged_iff_spec_regular req resp :
-  uniq req -> uniq resp -> regular req resp ->
+(* The code decides exactly the property's sentence, for all shapes. *)
+Lemma paged_iff_spec req resp :
+  uniq req -> uniq resp ->
   ((exists f, paged_result_field req resp = Some f) <-> spec_paged req resp).
 Proof.
-  intros Hq Hr (Rq & Rp & Rsz & Rmr). rewrite (paged_iff_code req resp Hq Hr).
-  unfold code_paged, spec_paged. split.
-  - intros (Ht & Hn & Hs & Hrep). repeat split; [| |  |exact Hrep].
-    + destruct Ht as (f & Hin & Hnm & Hp). exists f. repeat split; auto.
-      unfold sing_str. rewrite Hp. rewrite (Rq f Hin); [reflexivity|]. rewrite Hnm. reflexivity.
-    + destruct Hs as [(f & Hin & Hnm & Hp)|(_ & (f & Hin & Hnm & Hp))].
-      * right. exists f. repeat split; auto.
-        assert (Hrepf : frep f = false) by (apply (Rq f Hin); rewrite Hnm; reflexivity).
-        unfold legacy_size, sing_int, sing_wrapper32, is_int. rewrite Hrepf.
-        unfold size_type_ok in Hp. destruct (fty f); try discriminate; cbn; auto. rewrite Hp. reflexivity.
-      * left. exists f. repeat split; auto.
-        assert (Hrepf : frep f = false) by (apply (Rq f Hin); rewrite Hnm; reflexivity).
-        unfold sing_int. rewrite (Rsz f Hin Hnm Hp), Hrepf. reflexivity.
-    + destruct Hn as (f & Hin & Hnm & Hp). exists f. repeat split; auto.
-      unfold sing_str. rewrite Hp, (Rp f Hin Hnm). reflexivity.
-  - intros (Ht & Hs & Hn & Hrep). repeat split; [| | |exact Hrep].
-    + eapply has_weaken; [|exact Ht]. intros f _ _. apply sing_str_is_str.
-    + eapply has_weaken; [|exact Hn]. intros f _ _. apply sing_str_is_str.
-    + destruct (lookup "max_results" req) as [m|] eqn:Em.
-      * apply lookup_sound in Em. destruct Em as [Hmin Hmn].
-        destruct (size_type_ok m) eqn:Eok.
-        -- left. now exists m.
-        -- exfalso. destruct Hs as [Hps|(g & Hgin & Hgn & Hg)].
-           ++ exact (Rmr m Hmin Hmn Eok Hps).
-           ++ assert (g = m) by (apply (uniq_inj req); auto; congruence). subst g.
-              apply legacy_size_ok in Hg. congruence.
-      * apply lookup_none_iff in Em. destruct Hs as [Hps|(g & Hgin & Hgn & _)].
-        -- right. split; [exact Em|]. eapply has_weaken; [|exact Hps]. intros f _ _. apply sing_int_ok.
-        -- exfalso. exact (Em g Hgin Hgn).
+  intros Hq Hr. unfold paged_result_field, spec_paged, has_page_size, has_max_results.
+  rewrite (has_lookup req "page_token" sing_str Hq), (has_lookup resp "next_page_token" sing_str Hr),
+          (has_lookup req "page_size" sing_int Hq), (has_lookup req "max_results" legacy_size Hq).
+  unfold has_repeated. rewrite <- (find_some_iff_exists frep resp). fold (first_repeated resp).
+  destruct (lookup "page_token" req) as [t|].
+  2:{ split; [intros (f & H); discriminate | intros ((f & H & _) & _); discriminate]. }
+  rewrite (sing_str_eq t). destruct (sing_str t) eqn:Et; cbn [negb].
+  2:{ split; [intros (f & H); discriminate | intros ((f & H & Hs) & _); inversion H; subst; congruence]. }
+  destruct (lookup "next_page_token" resp) as [n|].
+  2:{ split; [intros (f & H); discriminate | intros (_ & _ & (f & H & _) & _); discriminate]. }
+  rewrite (sing_str_eq n). destruct (sing_str n) eqn:En; cbn [negb].
+  2:{ split; [intros (f & H); discriminate | intros (_ & _ & (f & H & Hs) & _); inversion H; subst; congruence]. }
+  assert (Hsize : (match lookup "page_size" req with Some f => negb (frep f) && is_int f | None => false end
+                   || match lookup "max_results" req with Some f => negb (frep f) && size_type_ok f | None => false end) = true
+                  <-> ((exists f, lookup "page_size" req = Some f /\ sing_int f = true) \/
+                       (exists f, lookup "max_results" req = Some f /\ legacy_size f = true))).
+  { rewrite orb_true_iff. split.
+    - intros [H|H].
+      + left. destruct (lookup "page_size" req) as [f|]; [|discriminate]. exists f. now rewrite <- sing_int_eq.
+      + right. destruct (lookup "max_results" req) as [f|]; [|discriminate]. exists f. now rewrite <- legacy_size_eq.
+    - intros [(f & H & Hs)|(f & H & Hs)]; rewrite H; [left; now rewrite sing_int_eq|right; now rewrite legacy_size_eq]. }
+  destruct (_ || _) eqn:Eb.
+  - split.
+    + intros H. split; [eauto|]. split; [now apply Hsize|]. split; [eauto|exact H].
+    + intros (_ & _ & _ & H). exact H.
+  - split; [intros (f & H); discriminate|].
+    intros (_ & Hs & _). apply Hsize in Hs. discriminate.
 Qed.
 
-(* ---- where the code and the sentence differ (DESIGN section 9 no. 18, plus the label) ---- *)
+(* when a method is paged, the item field is the first repeated field of the response, in declaration order *)
+Lemma paged_field_first_repeated req resp f :
+  paged_result_field req resp = Some f ->
+  exists before after, resp = before ++ f :: after /\ frep f = true /\ Forall (fun g => frep g = false) before.
+Proof.
+  unfold paged_result_field. intros H.
+  destruct (lookup "page_token" req) as [t|]; [|discriminate].
+  destruct (negb (token_ok t)); [discriminate|].
+  destruct (lookup "next_page_token" resp) as [n|]; [|discriminate].
+  destruct (negb (token_ok n)); [discriminate|].
+  destruct (has_page_size req || has_max_results req); [|discriminate].
+  now apply find_split.
+Qed.
+
+(* ---- the former gaps between the code and the sentence (DESIGN section 9 no. 18, plus the label), closed by
+   /repo commit 40fb15d: the three shapes are now decided as the sentence says ---- *)
 Definition book : field := mkField "books" (TMsg "google.example.library.v1" "Book") true false.
 Definition str (n : string) : field := mkField n TStr false false.
 Definition resp_std : shape := [book; str "next_page_token"].
-
-(* (a) a wrapper-typed page_size is accepted although the sentence allows wrappers for max_results only *)
 Definition req_wrapper_page_size : shape :=
   [str "parent"; mkField "page_size" (TMsg "google.protobuf" "Int32Value") false false; str "page_token"].
-Lemma paged_iff_spec_refuted_wrapper_page_size :
-  exists req resp, uniq req /\ uniq resp /\
-    paged_result_field req resp <> None /\ ~ spec_paged req resp.
-Proof.
-  exists req_wrapper_page_size, resp_std. split; [|split; [|split]].
-  - unfold uniq. cbn. repeat constructor; cbn; intuition discriminate.
-  - unfold uniq. cbn. repeat constructor; cbn; intuition discriminate.
-  - vm_compute. discriminate.
-  - intros H. apply spec_pagedb_iff in H. vm_compute in H. discriminate.
-Qed.
-
-(* (b) a max_results of an inadmissible type hides an integer page_size *)
 Definition req_shadowed_page_size : shape :=
   [str "max_results"; mkField "page_size" TInt false false; str "page_token"].
-Lemma paged_iff_spec_refuted_shadowed_page_size :
-  exists req resp, uniq req /\ uniq resp /\
-    spec_paged req resp /\ paged_result_field req resp = None.
-Proof.
-  exists req_shadowed_page_size, resp_std. split; [|split; [|split]].
-  - unfold uniq. cbn. repeat constructor; cbn; intuition discriminate.
-  - unfold uniq. cbn. repeat constructor; cbn; intuition discriminate.
-  - apply spec_pagedb_iff. vm_compute. reflexivity.
-  - vm_compute. reflexivity.
-Qed.
-
-(* (c) the label of the paging fields is not looked at: a repeated string page_token (or next_page_token,
-   or a repeated integer page_size) still classifies the method as paginated *)
 Definition req_repeated_token : shape :=
   [mkField "page_size" TInt false false; mkField "page_token" TStr true false].
-Lemma paged_iff_spec_refuted_repeated_paging_field :
-  exists req resp, uniq req /\ uniq resp /\
-    paged_result_field req resp <> None /\ ~ spec_paged req resp.
-Proof.
-  exists req_repeated_token, resp_std. split; [|split; [|split]].
-  - unfold uniq. cbn. repeat constructor; cbn; intuition discriminate.
-  - unfold uniq. cbn. repeat constructor; cbn; intuition discriminate.
-  - vm_compute. discriminate.
-  - intros H. apply spec_pagedb_iff in H. vm_compute in H. discriminate.
-Qed.
+Example former_gaps_closed :
+  paged_result_field req_wrapper_page_size resp_std = None /\
+  option_map fname (paged_result_field req_shadowed_page_size resp_std) = Some "books" /\
+  paged_result_field req_repeated_token resp_std = None.
+Proof. repeat split. Qed.
 
-(* non-vacuity of the regular case: a conventional List method, paged by both readings, item field = first repeated *)
+(* non-vacuity: a conventional List method whose response declares its repeated fields out of field-number order;
+   unique names, paged by the sentence, item field = the first repeated field in declaration order *)
 Definition req_conventional : shape :=
   [str "parent"; mkField "page_size" TInt false false; str "page_token"; str "filter"].
 Definition resp_two_repeated : shape :=
   [mkField "total_size" TInt false false; mkField "labels" (TMsg "p" "LabelsEntry") true true; book;
    str "next_page_token"; mkField "unreachable" TStr true false].
-Example regular_conventional :
-  uniq req_conventional /\ uniq resp_two_repeated /\ regular req_conventional resp_two_repeated /\
+Example conventional_paged :
+  uniq req_conventional /\ uniq resp_two_repeated /\
   spec_paged req_conventional resp_two_repeated /\
   option_map fname (paged_result_field req_conventional resp_two_repeated) = Some "labels".
 Proof.
-  split; [|split; [|split; [|split]]].
+  split; [|split; [|split]].
   - unfold uniq. cbn. repeat constructor; cbn; intuition discriminate.
   - unfold uniq. cbn. repeat constructor; cbn; intuition discriminate.
-  - split; [|split; [|split]].
-    + intros f Hin Hn. cbn in Hin. repeat (destruct Hin as [<-|Hin]; [try reflexivity; try discriminate|]). inversion Hin.
-    + intros f Hin Hn. cbn in Hin. repeat (destruct Hin as [<-|Hin]; [try reflexivity; try discriminate|]). inversion Hin.
-    + intros f Hin Hn Hok. cbn in Hin. repeat (destruct Hin as [<-|Hin]; [try reflexivity; try discriminate|]). inversion Hin.
-    + intros f Hin Hn Hok. cbn in Hin. repeat (destruct Hin as [<-|Hin]; [try discriminate|]). inversion Hin.
   - apply spec_pagedb_iff. vm_compute. reflexivity.
   - vm_compute. reflexivity.
 Qed.
@@ -461,6 +357,26 @@ Section PagerProofs.
     destruct (split_unique _ _ _ _ _ _ _ Hs Hs') as (-> & -> & ->). exact Hf.
   Qed.
 
+  (* breaking out while holding page number b <= length init: exactly b follow-up calls have been made, each threaded
+     from the page before it, and attribute lookup reaches page b *)
+  Lemma early_break_behaviour (bb : bool) (c : call) (p0 : page) (script : list page) o init last rest b :
+    iterate bb c p0 script = Some o -> splits_at_first_empty (p0 :: script) init last rest ->
+    b <= length init ->
+    exists o', stop_after b o = Some o' /\
+      o_pages o' = firstn (S b) (init ++ [last]) /\
+      o_calls o' = c :: map (fun p => mkCall (p_token p) (c_fields c) (c_opts c)) (firstn b init) /\
+      o_final o' = nth_error (init ++ [last]) b /\
+      o_items o' = concat (map p_items (firstn (S b) (init ++ [last]))).
+  Proof.
+    intros H Hs Hb. destruct (pager_behaviour bb c p0 script o H) as (i & l & r & Hs' & Hp & _ & Hc & _).
+    destruct (split_unique _ _ _ _ _ _ _ Hs Hs') as (-> & -> & ->).
+    unfold stop_after. rewrite Hp.
+    destruct (nth_error (i ++ [l]) b) as [pb|] eqn:En.
+    - eexists. split; [reflexivity|]. cbn [o_pages o_calls o_final o_items]. repeat split.
+      rewrite Hc. cbn [firstn]. f_equal. fold (threaded c). now rewrite firstn_map.
+    - exfalso. apply nth_error_None in En. rewrite app_length in En. cbn in En. lia.
+  Qed.
+
   (* while iterating, attribute lookup always reaches the page that was yielded last *)
   Lemma attrs_at_each_yield (st : pstate) script sts :
     run st script = Some sts -> map pager_attrs sts = yielded_pages sts.
@@ -481,6 +397,14 @@ Proof.
   - repeat constructor; discriminate.
 Qed.
 
+Example early_break_example :
+  1 <= length [ex_p ["a"; "b"] "t1"; ex_p [] "t2"] /\
+  option_map (fun o => (o_calls o, o_final o))
+    (match iterate true (mkCall "" "parent=p" "timeout=3") (ex_p ["a"; "b"] "t1") ex_script with
+     | Some o => stop_after 1 o | None => None end)
+  = Some ([mkCall "" "parent=p" "timeout=3"; mkCall "t1" "parent=p" "timeout=3"], Some (ex_p [] "t2")).
+Proof. split; [cbn; lia|reflexivity]. Qed.
+
 (* ================================================================== (iii) emitted classes and wrapping *)
 
 (* exactly the paged methods get pager classes and are wrapped, sync and asyncio alike *)
@@ -492,11 +416,11 @@ Proof.
   - split; intros (x & H); discriminate.
 Qed.
 
-(* ... which, with paged_iff_code, says when a client method returns a pager in terms of the two shapes *)
-Lemma wrap_iff_code_paged (b : bool) (m : rpc) :
+(* ... which, with paged_iff_spec, says when a client method returns a pager in terms of the two shapes *)
+Lemma wrap_iff_spec_paged (b : bool) (m : rpc) :
   uniq (r_req m) -> uniq (r_resp m) ->
-  ((exists w, client_wrap b m = Some w) <-> code_paged (r_req m) (r_resp m)).
-Proof. intros Hq Hr. rewrite wrap_iff_paged. now apply paged_iff_code. Qed.
+  ((exists w, client_wrap b m = Some w) <-> spec_paged (r_req m) (r_resp m)).
+Proof. intros Hq Hr. rewrite wrap_iff_paged. now apply paged_iff_spec. Qed.
 
 Lemma pagers_module_classes (with_async : bool) (ms : list rpc) :
   length (pagers_module with_async ms) =
